@@ -1950,3 +1950,67 @@ MUTANTS += [
         {"file": T, "old": "    def _assign_rates(\n", "new": _GUARD_HELPER % '        if getattr(r, "constant_rate", False):\n            return ""\n'},
         {"file": T, "old": "        " + _LT + "\n        " + _UT + "\n" + _TR, "new": "        tranges = [self._guard(r) for r in reactions]\n"}], "rules": ["R1"]},
 ]
+# ---- wave 4: everyday pull-request refactors (extract / inline a helper, guard clauses, loop <-> comprehension, constants, Jinja macro)
+_COND_HELPER = ('    @staticmethod\n    def _temperature_condition(reaction):\n        bounds = []\n        if reaction.temp_min > 0:\n            bounds.append(f"Tgas>={reaction.temp_min}")\n'
+                '        if reaction.temp_max > 0:\n            bounds.append(f"Tgas%s{reaction.temp_max}")\n        return " && ".join(bounds)\n\n    def _assign_rates(\n')
+_GUARDS3 = "        " + _LT + "\n        " + _UT + "\n" + _TR
+_COND_LOOP = ('        tranges = []\n        for r in reactions:\n            conditions = []\n            if r.temp_min > 0:\n                conditions.append(f"Tgas>={r.temp_min}")\n'
+              '            if r.temp_max > 0:\n                conditions.append(f"Tgas%s{r.temp_max}")\n            tranges.append(" && ".join(conditions))\n')
+_FMT_GUARD_CLAUSES = [
+    {"file": RFILE, "old": "        verbose = None\n\n        rnames = [x.name for x in sorted(self.reactants)]", "new": "        rnames = [x.name for x in sorted(self.reactants)]"},
+    {"file": RFILE, "old": "            verbose = ", "new": "            return ", "count": 7},
+    {"file": RFILE, "old": "        elif form ==", "new": "        if form ==", "count": 6},
+    {"file": RFILE, "old": '        else:\n            raise ValueError(f"Unknown format: {form}")\n\n        return verbose\n', "new": '        raise ValueError(f"Unknown format: {form}")\n'},
+]
+_STM_MACRO = '{%% macro ratestm(stm) -%%}\n{{ stm%s | stmwrap(80, 8) }}\n        {{ "" }}\n{%%- endmacro %%}\n#include <math.h>\n'
+_STM_CALL = '    {% for assign in ode.rateeqns -%}\n        {{ ratestm(assign) }}\n    {% endfor %}\n'
+_K_DEFAULT_HELPER = ('    @staticmethod\n    def _limit(text, default):\n        if text.upper() in ["N", "NONE", "N/A", "NO", ""]:\n            return default\n'
+                     '        for opstr in ["<", ">", %s".GE.", ".LT.", ".GT."]:\n            text = text.replace(opstr, "")\n        return float(text.replace("d", "e"))\n\n' + _K_CLS)
+_K_DEFAULT_ARMS = ('                elif key == "tmin":\n                    self.temp_min = self._limit(value, self.temp_min)\n'
+                   '                elif key == "tmax":\n                    self.temp_max = self._limit(value, self.temp_max)\n')
+_K_PROC_HELPER = ('    def _set_limit(self, attribute, text):\n        if text.upper() in ["N", "NONE", "N/A", "NO", ""]:\n            return\n'
+                  '        for opstr in ["<", ">", ".LE.", ".GE.", ".LT.", ".GT."]:\n            text = text.replace(opstr, "")\n        setattr(self, attribute, float(text.replace("d", "e")))\n\n' + _K_CLS)
+_K_PROC_ARMS = '                elif key == "tmin":\n                    self._set_limit("%s", value)\n                elif key == "tmax":\n                    self._set_limit("%s", value)\n'
+_K_PICKED = ('                elif key in ("tmin", "tmax"):\n                    ' + _K_NONE + '\n                        ' + _K_OPS + '\n                            value = value.replace(opstr, "")\n'
+             '                        value = value.replace("d", "e")\n                        attribute = "%s" if key == "tmin" else "%s"\n                        setattr(self, attribute, float(value))\n')
+_NET = "naunet/network.py"
+_DUP_DEF = "    def find_duplicate_reaction(self, mode: str = None) -> list[tuple[int, Reaction]]:\n"
+_DUP_LIST = ('        check_list = reactions\n\n        if mode == "brief":\n            check_list = [Reaction(re.reactants, re.products) for re in reactions]\n'
+             '        elif mode is not None:\n            check_list = [f"{react:{mode}}" for react in reactions]\n')
+_DUP_KEY = ('    @staticmethod\n    def _comparison_key(reaction, mode):\n        if mode is None:\n            return %s\n        if mode == "brief":\n'
+            '            return Reaction(reaction.reactants, reaction.products)\n        return f"{reaction:{mode}}"\n\n' + _DUP_DEF)
+_INIT_DEFAULTS = "        temp_min: float = -1.0,\n        temp_max: float = -1.0,\n"
+_U_FR = "            if self.reaction_type == self.ReactionType.UCLCHEM_FR:\n                lt, ut = 0, 30\n"
+MUTANTS += [
+    {"name": "condition-helper-with-appends-upper-inclusive", "edits": [{"file": T, "old": "    def _assign_rates(\n", "new": _COND_HELPER % "<="},
+                                                                        {"file": T, "old": _GUARDS3, "new": "        tranges = [self._temperature_condition(reac) for reac in reactions]\n"}], "rules": ["R1"]},
+    {"name": "conditions-list-per-iteration-upper-inclusive", "file": T, "old": _GUARDS3, "new": _COND_LOOP % "<=", "rules": ["R1"]},
+    {"name": "format-guard-clauses-bounds-in-exponent-notation", "edits": _FMT_GUARD_CLAUSES + [{"file": RFILE, "old": 'f"{self.temp_max:9.2f}"', "new": 'f"{self.temp_max:9.2e}"'}], "rules": ["R7"]},
+    {"name": "paste-macro-per-statement-rewrites-guard", "edits": [{"file": RATES, "old": "#include <math.h>\n", "new": _STM_MACRO % ' | replace("if (", "if (1 || ")'}, {"file": RATES, "old": _J_LOOP, "new": _STM_CALL}], "rules": ["R3"]},
+    {"name": "krome-limit-helper-with-default-lacks-.LE.", "edits": [{"file": KROME, "old": _K_CLS, "new": _K_DEFAULT_HELPER % ""}, {"file": KROME, "old": _K_ARMS_OLD, "new": _K_DEFAULT_ARMS}], "rules": ["R4"]},
+    {"name": "krome-procedure-helper-crossed", "edits": [{"file": KROME, "old": _K_CLS, "new": _K_PROC_HELPER}, {"file": KROME, "old": _K_ARMS_OLD, "new": _K_PROC_ARMS % ("temp_max", "temp_min")}], "rules": ["R4"]},
+    {"name": "krome-attribute-picked-by-test-swapped", "file": KROME, "old": _K_ARMS_OLD, "new": _K_PICKED % ("temp_max", "temp_min"), "rules": ["R4"]},
+    {"name": "duplicates-key-helper-default-brief", "edits": [{"file": _NET, "old": _DUP_DEF, "new": _DUP_KEY % "Reaction(reaction.reactants, reaction.products)"},
+                                                              {"file": _NET, "old": _DUP_LIST, "new": "        check_list = [self._comparison_key(react, mode) for react in reactions]\n"}], "rules": ["R5"]},
+    {"name": "init-defaults-by-constant-positive", "edits": [{"file": RFILE, "old": "class Reaction(Component):\n", "new": "UNBOUNDED = 1.0\n\n\nclass Reaction(Component):\n"},
+                                                             {"file": RFILE, "old": _INIT_DEFAULTS, "new": "        temp_min: float = UNBOUNDED,\n        temp_max: float = UNBOUNDED,\n"}], "rules": ["R4"]},
+]
+BENIGN += [
+    {"name": "condition-helper-with-appends", "edits": [{"file": T, "old": "    def _assign_rates(\n", "new": _COND_HELPER % "<"},
+                                                        {"file": T, "old": _GUARDS3, "new": "        tranges = [self._temperature_condition(reac) for reac in reactions]\n"}]},
+    {"name": "conditions-list-per-iteration", "file": T, "old": _GUARDS3, "new": _COND_LOOP % "<"},
+    {"name": "rates-over-full-slice-copy", "file": T, "old": "rateexprs = [reac.rateexpr() for reac in reactions]", "new": "rateexprs = [reac.rateexpr() for reac in reactions[:]]"},
+    {"name": "format-guard-clauses", "edits": _FMT_GUARD_CLAUSES},
+    {"name": "paste-macro-per-statement", "edits": [{"file": RATES, "old": "#include <math.h>\n", "new": _STM_MACRO % ""}, {"file": RATES, "old": _J_LOOP, "new": _STM_CALL}]},
+    {"name": "paste-loop-subscript-default-full-slice", "file": RATES, "old": "{% for assign in ode.rateeqns -%}", "new": '{% for assign in ode["rateeqns"][:] | default([]) -%}'},
+    {"name": "fex-k-zero-through-set-alias", "file": FEX, "old": _FEX_K, "new": '    {% set zero = "{0.0}" -%}\n    realtype k[NREACTIONS] = {{ zero }};\n    EvalRates(k, y, u_data);'},
+    {"name": "krome-limit-helper-with-default", "edits": [{"file": KROME, "old": _K_CLS, "new": _K_DEFAULT_HELPER % '".LE.", '}, {"file": KROME, "old": _K_ARMS_OLD, "new": _K_DEFAULT_ARMS}]},
+    {"name": "krome-procedure-helper-with-guard-clause", "edits": [{"file": KROME, "old": _K_CLS, "new": _K_PROC_HELPER}, {"file": KROME, "old": _K_ARMS_OLD, "new": _K_PROC_ARMS % ("temp_min", "temp_max")}]},
+    {"name": "krome-attribute-picked-by-test", "file": KROME, "old": _K_ARMS_OLD, "new": _K_PICKED % ("temp_min", "temp_max")},
+    {"name": "krome-no-bound-test-lower-cased", "file": KROME, "old": _K_NONE, "new": 'if value.lower() not in ["n", "none", "n/a", "no", ""]:', "count": 2},
+    {"name": "duplicates-key-helper-per-reaction", "edits": [{"file": _NET, "old": _DUP_DEF, "new": _DUP_KEY % "reaction"},
+                                                             {"file": _NET, "old": _DUP_LIST, "new": "        check_list = [self._comparison_key(react, mode) for react in reactions]\n"}]},
+    {"name": "init-defaults-by-constant", "edits": [{"file": RFILE, "old": "class Reaction(Component):\n", "new": "UNBOUNDED = -1.0\n\n\nclass Reaction(Component):\n"},
+                                                    {"file": RFILE, "old": _INIT_DEFAULTS, "new": "        temp_min: float = UNBOUNDED,\n        temp_max: float = UNBOUNDED,\n"}]},
+    {"name": "uclchem-freeze-test-by-type-name", "file": UCL, "old": _U_FR, "new": '            if self.reaction_type.name == "UCLCHEM_FR":\n                lt, ut = 0, 30\n'},
+]
